@@ -445,6 +445,16 @@ VALID_SCOPED = ["@scoped void f(Shape::Kind k)", "@scoped void f(Color c)", "@sc
 ILLEGAL += ["void f(int *a +dimension(n 2), int n)", "void f(int *a +dimension(3 4))", "void f(int *a +dimension(2 n), int n)", "const char *f() +len(3 0)",
             "void f(int *a +rank(1 1))", "void f(int *a +dimension(n_ 2), int n_)",
             "void f(int *a +dimension(n m), int n, int m)", "void f(int *a +rank(1), int n +implied(size(a) 2))", "void f(int *a +dimension(n)) )", "int *f(int n) +dimension(n n)"]
+# the language of the library: what only exists in C++ is refused in a C library (the std:: names, references, classes with
+# member functions, templates, namespaces), and C declarations that merely look like them are accepted
+ILLEGAL += ["@c void f(std::string &s)", "@c void f(const std::string *s)", "@c std::string f()", "@c void f(std::vector<int> &v)",
+            "@c const std::vector<double> &f()", "@c void f(string s)", "@c void f(vector<int> v)", "@c void f(std::string s, int n)"]
+VALID_SCOPED += ["@c void f(int std)", "@c void f(int string)", "@c void f(const char *s, int vector)", "@c int f(void)", "@c void f(int *a +rank(1), size_t n +implied(size(a)))"]
+# destructors: the name after ~ is the (unqualified) name of the class it is declared in, wherever that class is declared
+for _where in ("global", "namespace", "nested", "nsfield", "ns2"):
+    VALID_SCOPED.append("@dtor:%s ~Circle()" % _where)
+    ILLEGAL += ["@dtor:%s ~Other()" % _where, "@dtor:%s ~geom()" % _where]
+ILLEGAL += ["@dtor:namespace ~geom::Circle()", "@dtor:nested ~Outer()"]
 ILLEGAL = list(dict.fromkeys(ILLEGAL))
 
 
@@ -461,8 +471,26 @@ def attr_case(decl):
     if decl.startswith("@class "):
         # the declaration is a data member of a class
         decls = [dict(decl="class Cm", declarations=[dict(decl="Cm()"), dict(decl=decl[len("@class "):])])]
+    extra = {}
+    if decl.startswith("@c "):
+        decls = [dict(decl=decl[3:])]
+        extra = dict(language="c")
+    if decl.startswith("@dtor:"):
+        where, text = decl[len("@dtor:"):].split(" ", 1)
+        cls = dict(decl="class Circle", declarations=[dict(decl="Circle()"), dict(decl=text)])
+        if where == "global":
+            decls = [cls]
+        elif where == "namespace":
+            decls = [dict(decl="namespace geom", declarations=[cls])]
+        elif where == "ns2":
+            decls = [dict(decl="namespace geom", declarations=[dict(decl="namespace inner", declarations=[cls])])]
+        elif where == "nested":
+            decls = [dict(decl="class Outer", declarations=[dict(decl="Outer()"), cls])]
+        else:
+            decls = [cls]
+            extra = dict(namespace="geom")
     d = dict(library="lib", cxx_header="lib.hpp", declarations=decls,
-             options=dict(wrap_python=True, wrap_lua=True))
+             options=dict(wrap_python=True, wrap_lua=True), **extra)
     lib = ast.create_library_from_dictionary(d)
     cfg = main.Config()
     cfg.log = open(os.devnull, "w")
@@ -723,7 +751,7 @@ def run(ctx):
                               {"kind": "attr", "decl": decl})
         elif status == "diagnostic":
             if decl in VALID_SCOPED:
-                ctx.violation("attrs valid-rejected %s" % decl, "a correctly qualified name is rejected: %s: %s" % (decl, msg), {"kind": "attr", "decl": decl})
+                ctx.violation("attrs valid-rejected %s" % decl, "a valid declaration is rejected: %s: %s" % (decl, msg), {"kind": "attr", "decl": decl})
             if not msg.strip():
                 ctx.violation("attrs empty-diagnostic %s" % decl, "diagnostic without text for %s" % decl, {"kind": "attr", "decl": decl})
         else:
